@@ -252,3 +252,4 @@ Proof.
   intro H. specialize (H [EvState (s2l "D") (s2l "V") None (s2l "Ok")] (s2l "D") (s2l "V") (Some (s2l "Busy")) (s2l "Alert") [] eq_refl).
   destruct H as [H _]. vm_compute in H. discriminate.
 Qed.
+
